@@ -141,3 +141,16 @@ class SlowRecReg(RecReg):
             import time
             time.sleep(0.03)
         return RecReg.fit(self, X, y, sample_weight)
+
+
+class StubEmbedding(BaseEstimator, TransformerMixin):
+    """Deterministic stand-in for TSNE (fit_transform only): a fixed linear 2-D embedding."""
+
+    def __init__(self, scale=1.0):
+        self.scale = scale
+
+    def fit_transform(self, X, y=None):
+        X = numpy.asarray(X, dtype=float)
+        a = X[:, 0] * 2.0 + X[:, -1] * self.scale + 1.0
+        b = X[:, 0] - 3.0 * X[:, -1] + numpy.arange(X.shape[0]) % 3
+        return numpy.vstack([a, b]).T
